@@ -28,7 +28,7 @@ CHECKS["C02"] = dict(
          "(1..16383 incl. boundaries), TCP write segmentation and pacing, 0..120 KB (thorough 2 MiB) per send. Non-trivial = >=2 chunks in some direction, or a "
          "half-close followed by traffic in the opposite direction, or an address split across chunks / coalesced with data. Distinct = canonical case JSON.",
     assumptions=["loopback only: no loss or reordering below TCP", "interleavings are those the kernel and scheduler produce under generated pacing"],
-    units=[unit("props", ["Relay", "Concurrent", "Duplex"], "C02")],
+    units=[unit("props", ["Relay", "Concurrent", "Duplex"], "C02"), unit("props26", ["Quiet"], "C02")],
 )
 
 _UDP_GEN = ("rapid-generated datagram histories through the real PacketHandler on a real dual-stack UDP socket: 1..7 client sockets on 127.x.y.z/::1 "
@@ -306,7 +306,7 @@ CHECKS["C12"] = dict(
          "pending and later calls on a closed handle return net.ErrClosed; after the last close the address can be bound again, no goroutine of the shared listener is left, and connections accepted by the socket "
          "but handed to nobody are closed (EOF/RST, not a hang). Non-trivial = a close while deliveries are in flight or calls are pending, deliveries spread over >=2 handles, or re-acquisition after full release.",
     assumptions=["interleavings are sampled by repetition, not enumerated", "virtual packet connections are closed at most once (documented precondition)"],
-    units=[unit("props", ["Stream", "Packet", "Churn"], "C12")],
+    units=[unit("props", ["Stream", "Packet", "Churn"], "C12"), unit("props", ["AcceptFault"], "C12", shards=(2, 8))],
 )
 
 CHECKS["C13"] = dict(
@@ -379,7 +379,7 @@ CHECKS["C15"] = dict(
          "authentication failed, carrying the bytes the client sent; status in the admissible set of the scenario; four counters equal to the wire for completed connections and never above it otherwise; "
          "gathered opened/closed/data_bytes consistent with the call log. Non-trivial = any scenario other than a plain small relay, or >16 KB transferred.",
     assumptions=["statuses of reset scenarios are sets (a reset may surface on either copy direction)"],
-    units=[unit("props", ["Wire"], "C15")],
+    units=[unit("props", ["Wire", "Mem"], "C15")],
 )
 
 CHECKS["C18"] = dict(
